@@ -126,4 +126,5 @@ def fingerprint_url(url, unsplit=True, strip_suffix=False, platform_aware=False)
     if not unsplit:
         return result
 
-    return urlunsplit(result)[2:]
+    # NOTE: the "//" to drop is only there when there is a netloc
+    return urlunsplit(result)[2:] if result.netloc else urlunsplit(result)
